@@ -290,7 +290,15 @@ def ioapi_specs(draw, max_n=4, disk=True):
     return dict(kind='ioapi', shape=[nt, nl, nr, nc], perim=perim, vars=vs,
                 vglvls=vgl, sdate=sdate, stime=stime, tstep=tstep,
                 tflag635=False,
-                disk=bool(disk and draw(st.integers(0, 3)) == 0))
+                disk=bool(disk and draw(st.integers(0, 3)) == 0),
+                # constructor and user-supplied TFLAG: none (synthesised from
+                # SDATE/STIME/TSTEP), one whose VAR length matches the number
+                # of variables, one that does not
+                ctor=draw(st.sampled_from(['from_arrays', 'from_arrays',
+                                           'from_ncvs'])),
+                tflag=draw(st.sampled_from([None, None, 'match', 'match',
+                                            'mismatch'])),
+                tflag_first=draw(st.booleans()))
 
 
 def build_ioapi(fs):
@@ -300,12 +308,51 @@ def build_ioapi(fs):
     arrs = OD()
     for v in fs['vars']:
         arrs[v['name']] = np.array(v['data'], dtype='f').reshape(shape)
+    if fs.get('tflag'):
+        import datetime
+        nv = len(fs['vars'])
+        nvl = nv if fs['tflag'] == 'match' else (nv + 1)
+        sd, stime, ts = int(fs['sdate']), int(fs['stime']), int(fs['tstep'])
+        t0 = datetime.datetime(sd // 1000, 1, 1) + datetime.timedelta(
+            days=sd % 1000 - 1, hours=stime // 10000,
+            minutes=stime % 10000 // 100, seconds=stime % 100)
+        dt = datetime.timedelta(hours=ts // 10000,
+                                minutes=ts % 10000 // 100, seconds=ts % 100)
+        tf = np.zeros((nt, nvl, 2), dtype='i')
+        for ti in range(nt):
+            t = t0 + ti * dt
+            tf[ti, :, 0] = t.year * 1000 + t.timetuple().tm_yday
+            tf[ti, :, 1] = t.hour * 10000 + t.minute * 100 + t.second
+        if fs.get('tflag_first'):
+            arrs = OD([('TFLAG', tf)] + list(arrs.items()))
+        else:
+            arrs['TFLAG'] = tf
     fa = dict(SDATE=int(fs['sdate']), STIME=int(fs['stime']),
               TSTEP=int(fs['tstep']),
               VGLVLS=np.array(fs['vglvls'], dtype='f'), VGTOP=5000.,
               XORIG=-1024., YORIG=2048., XCELL=512., YCELL=512.,
               NLAYS=nl, FTYPE=2 if fs.get('perim') else 1)
-    f = ioapi_base.from_arrays(fileattrs=fa, **arrs)
+    if fs.get('ctor', 'from_arrays') == 'from_ncvs':
+        # the same construction by hand: variables -> from_ncvs -> metadata
+        from PseudoNetCDF.core._variables import PseudoNetCDFVariable
+        vs = OD()
+        for k, arr in arrs.items():
+            if k == 'TFLAG':
+                vd = ('TSTEP', 'VAR', 'DATE-TIME')
+                at = dict(units='<YYYYDDD,HHMMSS>', long_name='TFLAG',
+                          var_desc='TFLAG')
+            else:
+                vd = ('TSTEP', 'LAY', 'PERIM') if fs.get('perim') else \
+                    ('TSTEP', 'LAY', 'ROW', 'COL')
+                at = dict(units='unknown', long_name=k, var_desc=k)
+            at = dict(units=at['units'].ljust(16),
+                      long_name=at['long_name'].ljust(16),
+                      var_desc=at['var_desc'].ljust(80))
+            vs[k] = PseudoNetCDFVariable.from_array(k, arr, vd, **at)
+        f = ioapi_base.from_ncvs(**vs)
+        f.updatemeta(fa)
+    else:
+        f = ioapi_base.from_arrays(fileattrs=fa, **arrs)
     if fs.get('tflag635'):
         f.variables['TFLAG'][:, :, 0] = -635
         f.variables['TFLAG'][:, :, 1] = 0
